@@ -384,7 +384,9 @@ def do_batch(run, step):
         pctor = ctor if ctor != 's3' else 'files'     # the bucket decides the order of an S3 listing
         mc2, exc2 = _build(run, pctor, ents, allow, '%s-p%d' % (tag, pi))
         if mc2 is None:
-            add('C10.perm', 'a permutation of an accepted collection was rejected with %s' % type(exc2).__name__)
+            if isinstance(exc2, MX.InvalidMosCollection) or pctor == ctor:
+                add('C10.perm', 'a permutation of an accepted collection was rejected with %s' % type(exc2).__name__)
+            # otherwise this constructor cannot deliver the messages at all (C18 / C09 judge that): not a matter of order
             continue
         ids2 = [r.message_id for r in mc2.mos_readers]
         if ids2 != got_ids:
